@@ -222,6 +222,12 @@ func (s *SMS) SendCodeToUser(w http.ResponseWriter, r *http.Request, pid, number
 		return errSMSRateLimit
 	}
 
+	// The code replaces the one a pending enrolment was waiting for: unless it
+	// goes to the very number being enrolled it must not confirm that number.
+	if pending, ok := authboss.GetSession(r, SessionSMSNumber); ok && pending != number {
+		authboss.DelSession(w, SessionSMSNumber)
+	}
+
 	authboss.PutSession(w, SessionSMSLast, strconv.FormatInt(time.Now().UTC().Unix(), 10))
 	authboss.PutSession(w, SessionSMSSecret, code)
 	authboss.PutSession(w, SessionSMSSecretPID, pid)
